@@ -58,6 +58,68 @@ pub fn write_trace(path: &Path, events: &[Event], cores: u32, max_pfn: u32) {
     std::fs::write(path, data).expect("write trace");
 }
 
+/// Write a trace with explicit per-CPU event lists and time stamps (microseconds)
+pub fn write_trace_timed(path: &Path, per_cpu: &[Vec<(u64, Event)>], max_pfn: u32) {
+    let mut data = vec![0u8; PAGE];
+    data[..4].copy_from_slice(&(per_cpu.len() as u32).to_le_bytes());
+    data[4..8].copy_from_slice(&(per_cpu.len() as u32).to_le_bytes());
+    data[8..12].copy_from_slice(&max_pfn.to_le_bytes());
+    for (cpu, evs) in per_cpu.iter().enumerate() {
+        assert!(evs.len() <= (PAGE - 16) / 16);
+        let mut page = vec![0u8; PAGE];
+        page[..4].copy_from_slice(&(cpu as u32).to_le_bytes());
+        for (k, (t, e)) in evs.iter().enumerate() {
+            let entry: u128 = (*t as u128 & ((1u128 << 38) - 1))
+                | ((e.pfn as u128) << 38)
+                | ((e.alloc as u128) << 62)
+                | ((e.order as u128) << 63)
+                | (((100 + k) as u128) << 96);
+            let off = 16 + k * 16;
+            page[off..off + 16].copy_from_slice(&entry.to_le_bytes());
+        }
+        data.extend(page);
+    }
+    std::fs::write(path, data).expect("write trace");
+}
+
+/// Long traces (more events than any small-input fast path of the replayer's sorting and
+/// bookkeeping): `rounds` rounds distributed round-robin over `cores` CPUs; a round
+/// allocates a block and frees it (whole), keeps it (every 5th) or frees its upper half
+/// (every 7th). `time_mode`: 0 = distinct increasing microseconds, 1 = all events in the
+/// same microsecond, 2 = 1 us steps after 20 s (equal once converted to f32 seconds).
+/// Events with equal time stamps keep their per-CPU buffer order.
+fn long_trace(cores: usize, rounds: usize, time_mode: usize) -> (Vec<Vec<(u64, Event)>>, Vec<Event>) {
+    let mut per_cpu: Vec<Vec<(u64, Event)>> = vec![vec![]; cores];
+    let mut logical = vec![];
+    let mut t = 0u64;
+    for r in 0..rounds {
+        let cpu = r % cores;
+        let order = (r % 4) as u8;
+        let pfn = (16 * (r + 1)) as u32;
+        let mut push = |e: Event, per_cpu: &mut Vec<Vec<(u64, Event)>>| {
+            t += 1;
+            let time = match time_mode {
+                0 => t,
+                1 => 7,
+                _ => 20_000_000 + t,
+            };
+            per_cpu[cpu].push((time, e));
+            logical.push(e);
+        };
+        push(Event { alloc: true, pfn, order }, &mut per_cpu);
+        if r % 5 == 4 {
+            continue; // stays allocated
+        }
+        if r % 7 == 6 && order > 0 {
+            let half = 1u32 << (order - 1);
+            push(Event { alloc: false, pfn: pfn + half, order: order - 1 }, &mut per_cpu);
+        } else {
+            push(Event { alloc: false, pfn, order }, &mut per_cpu);
+        }
+    }
+    (per_cpu, logical)
+}
+
 /// Trace-level reference: which frees find a live kernel block, and how many frames
 /// the trace still holds at the end.
 pub struct Expect {
@@ -230,6 +292,35 @@ fn check_trace(events: &[Event], cores: u32, dir: &Path, id: usize, col: &Mutex<
     }
 }
 
+fn check_long(cores: usize, rounds: usize, time_mode: usize, dir: &Path, id: usize, col: &Mutex<Collector>) {
+    let (per_cpu, logical) = long_trace(cores, rounds, time_mode);
+    let max_pfn = 4095u32;
+    let path = dir.join(format!("long{id}.bin"));
+    write_trace_timed(&path, &per_cpu, max_pfn);
+    let r = run_trace(&path);
+    let _ = std::fs::remove_file(&path);
+    let want = expect(&logical);
+    let managed = (max_pfn as usize + 1).next_multiple_of(512);
+    let problem = if !r.status_ok {
+        Some(("replayer exited abnormally", format!("stderr: {}", r.stderr_tail)))
+    } else if r.free_failed_lines > 0 {
+        Some(("a traced free of a live block failed in the allocator", format!("{} 'Free failed' line(s)", r.free_failed_lines)))
+    } else if r.free_frames != Some(managed - want.held_frames) {
+        Some((
+            "final free-frame count differs from managed size minus the frames the trace still holds",
+            format!("free_frames={:?} expected {} (managed {managed}, trace holds {})", r.free_frames, managed - want.held_frames, want.held_frames),
+        ))
+    } else {
+        None
+    };
+    if let Some((clause, detail)) = problem {
+        col.lock().unwrap().add(
+            Violation::new("C20", clause, format!("long trace cores={cores} rounds={rounds} time_mode={time_mode} ({} events): {detail}", logical.len())),
+            || json!({"engine": "replaymc", "long": {"cores": cores, "rounds": rounds, "time_mode": time_mode}}),
+        );
+    }
+}
+
 pub fn c20(tier: &str, out: Option<&Path>) -> i32 {
     let t0 = Instant::now();
     let thorough = tier == "thorough";
@@ -273,6 +364,21 @@ pub fn c20(tier: &str, out: Option<&Path>) -> i32 {
             with_partial.fetch_add(1, Ordering::Relaxed);
         }
     });
+    // long traces
+    let mut long_jobs = vec![];
+    for cores in [1usize, 2, 3] {
+        for rounds in [8usize, 12, 30, 60] {
+            for time_mode in 0..3 {
+                long_jobs.push((cores, rounds, time_mode));
+            }
+        }
+    }
+    let long_n = long_jobs.len();
+    par_for(long_jobs.len(), |i| {
+        let (cores, rounds, time_mode) = long_jobs[i];
+        check_long(cores, rounds, time_mode, &dir, i, &col);
+        evals.fetch_add(1, Ordering::Relaxed);
+    });
     let _ = std::fs::remove_dir_all(&dir);
     dom_finish(
         "C20",
@@ -282,7 +388,7 @@ pub fn c20(tier: &str, out: Option<&Path>) -> i32 {
         with_partial.load(Ordering::Relaxed),
         "every trace of 1..=maxlen events (first event an allocation) over the 13-event alphabet {alloc(512,o3), alloc(1024,o0), alloc(2048,o10), free whole/first/middle/last/half/single parts of them, free of an unknown pfn}, alternating 1 and 2 cores, written in the binary's page format and run through the real `replay` binary. Oracle: exit status 0 (its own validate), no 'Free failed' line, final free_frames = managed - frames the trace still holds (every found free releases exactly 2^order frames). distinct_nontrivial = traces containing a partial free of a larger live allocation",
         vec![json!({"trace": ["alloc(512,o3)", "free(514,o1)", "free(512,o1)"], "cores": 1})],
-        json!({"max_trace_length": maxlen, "alphabet": alpha.iter().map(event_json).collect::<Vec<_>>(), "traces": traces.len()}),
+        json!({"long_traces": long_n, "long_trace_rule": "cores {1,2,3} x rounds {8,12,30,60} x time stamps {distinct, all equal, 1us steps after 20s (equal as f32 seconds)}: each round allocates a block (orders 0..3, distinct pfns) on CPU round%cores and frees it whole / keeps it (every 5th) / frees its upper half (every 7th); events with equal time stamps keep their per-CPU buffer order", "max_trace_length": maxlen, "alphabet": alpha.iter().map(event_json).collect::<Vec<_>>(), "traces": traces.len()}),
         vec!["the replay binary is rebuilt from /repo/eval (dev profile) into /verif/target/eval-bin".into(),
              "the trace-level reference (which frees find a live block) follows the kernel-pfn bookkeeping the trace format implies; the allocator side is only observed through exit status, log lines and the final count".into()],
         col.into_inner().unwrap(),
@@ -311,8 +417,13 @@ pub fn replay(v: &Value, path: &str) -> i32 {
     let dir = std::env::temp_dir().join(format!("vheval-replay-{}", std::process::id()));
     std::fs::create_dir_all(&dir).unwrap();
     let col = Mutex::new(Collector::default());
-    check_trace(&events, cores, &dir, 0, &col);
-    check_trace(&events, cores, &dir, 1, &col);
+    if let Some(l) = v.get("long").filter(|l| l.is_object()) {
+        let g = |k: &str| l[k].as_u64().unwrap_or(1) as usize;
+        check_long(g("cores"), g("rounds"), g("time_mode"), &dir, 0, &col);
+    } else {
+        check_trace(&events, cores, &dir, 0, &col);
+        check_trace(&events, cores, &dir, 1, &col);
+    }
     let _ = std::fs::remove_dir_all(&dir);
     let col = col.into_inner().unwrap();
     for ((p, c), f) in &col.found {
